@@ -51,5 +51,54 @@ Fixpoint view_level (cz : codecs) (depth : nat) (validate : bool) (bs : bytes) :
                  (debug_build cz) validate (S (length bs)) bs
   end.
 
-(* the levels whose buffer the returned Partition data owns *)
-Definition kept_alive (level : nat) : bool := Nat.leb level 1.
+(* Which buffer the returned MessageSet owns.  from_slice returns a Borrowed set (views into
+   its input; `None` here) unless it meets a compressed message, in which case it returns what
+   from_vec returns for the decompressed vector.  from_vec(data):
+       let ms = from_slice(&data);
+       raw_data = match ms.raw_data { Owned(inner) => Owned(inner), Borrowed(_) => Owned(data) }
+   i.e. it owns `data` when the views point into `data`, and otherwise hands on the buffer the
+   inner set owns (the repaired code; before the repair it always kept `data`, so for two levels
+   of nesting the views pointed into a vector that had been dropped). *)
+Fixpoint owner_loop (inner : Z -> bytes -> res (option nat)) (dbg validate : bool) (fuel : nat) (bs : bytes)
+  : res (option nat) :=
+  match bs with
+  | [] => Ok None
+  | _ =>
+    match fuel with
+    | O => Err EOutOfFuel
+    | S f =>
+      match next_message dbg validate bs with
+      | Err EUnexpectedEOF => Ok None
+      | Err e => Err e
+      | Panic w => Panic w
+      | Ok (off, (attr, k, v), r) =>
+          let c := Z.land attr 7 in
+          if c =? COMPRESSION_NONE then owner_loop inner dbg validate f r
+          else if (c =? COMPRESSION_GZIP) || (c =? COMPRESSION_SNAPPY) then inner c v
+          else Err EUnsupportedCompression
+      end
+    end
+  end.
+
+(* level of the buffer owned by the set returned for `bs` (None: nothing owned, the views point
+   into `bs` itself, which the caller owns - for the top level that is Response.raw_data) *)
+Fixpoint owner_level (cz : codecs) (depth : nat) (validate : bool) (bs : bytes) : res (option nat) :=
+  match depth with
+  | O => Err EOutOfFuel
+  | S d =>
+      owner_loop (fun c v =>
+                    let from_vec data :=
+                        let* o := owner_level cz d validate data in
+                        Ok (Some (match o with None => 1%nat | Some l => S l end)) in
+                    if c =? COMPRESSION_GZIP then
+                      match gz_decompress cz v with
+                      | Some data => from_vec data
+                      | None => Err (EIo IoOther)
+                      end
+                    else if alloc_limit <=? xerial_max_alloc v then alloc_panic
+                    else let* data := xerial_read_to_end v in from_vec data)
+                 (debug_build cz) validate (S (length bs)) bs
+  end.
+
+(* before the repair: from_vec always kept the vector it was given *)
+Definition kept_alive_before_fix (level : nat) : bool := Nat.leb level 1.
